@@ -546,7 +546,8 @@ def eval_comprehension(ex, node: Any, st: State, kind: str) -> List[Tuple[State,
             continue
         dom = domain_of(ex, itv, s)
         if dom.concrete is not None:
-            raise Unsupported("comprehension over a literal tuple")
+            out += comp_concrete(ex, node, gen, dom.concrete, s, kind)
+            continue
         if (kind == "list" and getattr(dom, "seq", None) is not None and not gen.ifs
                 and isinstance(node.elt, ast.Name) and isinstance(gen.target, ast.Name)
                 and node.elt.id == gen.target.id):
@@ -556,6 +557,54 @@ def eval_comprehension(ex, node: Any, st: State, kind: str) -> List[Tuple[State,
             out.append((s, T(R, "list")))
             continue
         out += comp_symbolic(ex, node, gen, dom, s, kind)
+    return out
+
+
+def comp_concrete(ex, node, gen, items: List[Any], st: State, kind: str) -> List[Tuple[State, Any]]:
+    """a comprehension / generator expression over a tuple whose items are known one by one (`(a, b, c)`): unrolled"""
+    if kind not in ("list", "gen"):
+        raise Unsupported("set / dict comprehension over a literal tuple")
+    if len(items) > 12:
+        raise Unsupported("comprehension over a long literal tuple")
+    saved_env = dict(st.env)
+    states: List[Tuple[State, List[Any]]] = [(st, [])]
+    out: List[Tuple[State, Any]] = []
+    for item in items:
+        nxt: List[Tuple[State, List[Any]]] = []
+        for s0, acc in states:
+            for s1, o1 in ex.assign(gen.target, item, s0):
+                if o1 is not NORMAL:
+                    out.append((s1, o1))
+                    continue
+                conds: List[Tuple[State, Any]] = [(s1, True)]
+                for cnd in gen.ifs:
+                    step = []
+                    for s2, ok in conds:
+                        if ok is not True:
+                            step.append((s2, ok))
+                            continue
+                        for s3, cv in ex.ev(cnd, s2):
+                            if isinstance(cv, Raised):
+                                out.append((s3, cv))
+                                continue
+                            for s4, b in ex.branch(s3, ex.truth(cv, s3)):
+                                step.append((s4, True if b else "skip"))
+                    conds = step
+                for s2, ok in conds:
+                    if ok == "skip":
+                        nxt.append((s2, acc))
+                        continue
+                    for s3, ev_ in ex.ev(node.elt, s2):
+                        if isinstance(ev_, Raised):
+                            out.append((s3, ev_))
+                        else:
+                            nxt.append((s3, acc + [ev_]))
+        states = nxt
+        if len(states) > 64:
+            raise Unsupported("comprehension over a literal tuple forks too often")
+    for s0, acc in states:
+        s0.env = dict(saved_env)
+        out.append((s0, ex.new_list(s0, acc)))
     return out
 
 
